@@ -403,13 +403,12 @@ Proof.
     destruct (dec_principals f r); try discriminate. congruence.
 Qed.
 
-Section WithOpts.
+Section OptsGen.
   Variable addrs_ok : bytes -> bool.
   Variable cu : bool.
 
-  Notation dec_options := (dec_options addrs_ok cu).
+  Notation dec_options := (dec_options_gen addrs_ok cu).
   Notation dec_optval := (dec_optval addrs_ok).
-  Notation cert_options := (cert_options addrs_ok cu).
 
   Lemma dec_options_fuel known critical : forall fuel p,
     (length p <= fuel)%nat -> dec_options fuel known critical p <> RFuel.
@@ -417,7 +416,7 @@ Section WithOpts.
     induction fuel as [|f IH]; intros p Hlen.
     - destruct p; simpl in *; [discriminate | lia].
     - destruct p as [|b p']; [simpl; discriminate|].
-      cbn [Cert.dec_options]. destruct (get_string (b :: p')) as [[name r]|] eqn:E; [|discriminate].
+      cbn [dec_options_gen]. destruct (get_string (b :: p')) as [[name r]|] eqn:E; [|discriminate].
       apply get_string_shorter in E.
       destruct (assoc name known) as [k|].
       + destruct (get_string r) as [[data r']|] eqn:E2; [|discriminate].
@@ -429,20 +428,6 @@ Section WithOpts.
         * destruct (get_string r) as [[data r']|] eqn:E2; [|discriminate].
           apply get_string_shorter in E2. apply IH. simpl in *; lia.
         * apply IH. simpl in *; lia.
-  Qed.
-
-  Lemma cert_options_fuel typ o e : cert_options typ o e <> RFuel.
-  Proof.
-    unfold Cert.cert_options.
-    destruct (typ =? CERT_TYPE_USER); [|destruct (typ =? CERT_TYPE_HOST); [|discriminate]].
-    - pose proof (dec_options_fuel user_option_kinds true (length o) o (le_n _)).
-      destruct (dec_options (length o) user_option_kinds true o); try discriminate; try congruence.
-      pose proof (dec_options_fuel user_extension_kinds false (length e) e (le_n _)).
-      destruct (dec_options (length e) user_extension_kinds false e); try discriminate; congruence.
-    - pose proof (dec_options_fuel [] true (length o) o (le_n _)).
-      destruct (dec_options (length o) [] true o); try discriminate; try congruence.
-      pose proof (dec_options_fuel [] false (length e) e (le_n _)).
-      destruct (dec_options (length e) [] false e); try discriminate; congruence.
   Qed.
 
   (* -------------------------------------------------------------------------------------- *)
@@ -483,7 +468,7 @@ Section WithOpts.
     intros Hmode. induction fuel as [|f IH]; intros p l Hok.
     - destruct p; simpl; [|discriminate]. intros H; inversion H. exists []. simpl. auto.
     - destruct p as [|b p']; [simpl; intros H; inversion H; exists []; simpl; auto|].
-      cbn [Cert.dec_options].
+      cbn [dec_options_gen].
       destruct (get_string (b :: p')) as [[name r]|] eqn:E; [|discriminate].
       apply get_string_inv in E as [Hp Hn]; [|exact Hok].
       assert (bytes_ok r = true) as Hokr by (rewrite Hp in Hok; apply bytes_ok_app in Hok; tauto).
@@ -530,7 +515,7 @@ Section WithOpts.
       rewrite enc_pairs_length in Hfuel. destruct fuel as [|f]; [lia|].
       cbn [enc_pairs spec_options].
       destruct (enc_string_cons n (enc_string d ++ enc_pairs t)) as (b & tl & Hcons).
-      rewrite Hcons. cbn [Cert.dec_options]. rewrite <- Hcons.
+      rewrite Hcons. cbn [dec_options_gen]. rewrite <- Hcons.
       rewrite get_string_enc by exact Hn.
       destruct (assoc n known) as [k|] eqn:Ea.
       + rewrite get_string_enc by exact Hd.
@@ -544,6 +529,41 @@ Section WithOpts.
         rewrite Hif.
         rewrite get_string_enc by exact Hd.
         intros Hs. apply IH; [exact Hwft | lia | exact Hs].
+  Qed.
+
+End OptsGen.
+
+Section WithOpts.
+  Variable addrs_ok : bytes -> bool.
+
+  Notation dec_options := (dec_options_gen addrs_ok true).
+  Notation dec_optval := (dec_optval addrs_ok).
+  Notation cert_options := (cert_options addrs_ok).
+  Notation spec_options := (spec_options addrs_ok).
+
+  (* the model of record consumes the data of unknown options: decoding = walking the pairs *)
+  Theorem dec_options_pairs_iff known critical p l : bytes_ok p = true ->
+    (Cert.dec_options addrs_ok (length p) known critical p = ROk l <->
+     exists pairs, p = enc_pairs pairs /\ Forall wf_pair pairs /\ spec_options known critical pairs = Some l).
+  Proof.
+    intros Hok. unfold Cert.dec_options. split.
+    - apply (dec_options_pairs_sound addrs_ok true known critical (or_intror eq_refl)). exact Hok.
+    - intros (pairs & -> & Hwf & Hs).
+      apply (dec_options_pairs_complete addrs_ok true known critical (or_intror eq_refl)); auto.
+  Qed.
+
+  Lemma cert_options_fuel typ o e : cert_options typ o e <> RFuel.
+  Proof.
+    unfold Cert.cert_options, Cert.dec_options.
+    destruct (typ =? CERT_TYPE_USER); [|destruct (typ =? CERT_TYPE_HOST); [|discriminate]].
+    - pose proof (dec_options_fuel addrs_ok true user_option_kinds true (length o) o (le_n _)).
+      destruct (dec_options (length o) user_option_kinds true o); try discriminate; try congruence.
+      pose proof (dec_options_fuel addrs_ok true user_extension_kinds false (length e) e (le_n _)).
+      destruct (dec_options (length e) user_extension_kinds false e); try discriminate; congruence.
+    - pose proof (dec_options_fuel addrs_ok true [] true (length o) o (le_n _)).
+      destruct (dec_options (length o) [] true o); try discriminate; try congruence.
+      pose proof (dec_options_fuel addrs_ok true [] false (length e) e (le_n _)).
+      destruct (dec_options (length e) [] false e); try discriminate; congruence.
   Qed.
 
   Lemma cert_options_type typ o e l : cert_options typ o e = ROk l -> typ = CERT_TYPE_USER \/ typ = CERT_TYPE_HOST.
@@ -564,15 +584,15 @@ Section WithOpts.
     exists pairs lo, o = enc_pairs pairs /\ spec_options (known_critical typ) true pairs = Some lo /\
       Forall (fun p => exists k v, assoc (fst p) (known_critical typ) = Some k /\ dec_optval k (snd p) = Some v) pairs.
   Proof.
-    intros Hok. unfold Cert.cert_options, known_critical.
+    intros Hok. unfold Cert.cert_options, Cert.dec_options, known_critical.
     assert (Hgen : forall known lo, dec_options (length o) known true o = ROk lo ->
              exists pairs, o = enc_pairs pairs /\ spec_options known true pairs = Some lo /\
                Forall (fun p => exists k v, assoc (fst p) known = Some k /\ dec_optval k (snd p) = Some v) pairs).
     { intros known lo Hd.
-      destruct (dec_options_pairs_sound known true (or_introl eq_refl) _ _ _ Hok Hd) as (pairs & Hp & _ & Hs).
+      destruct (dec_options_pairs_sound addrs_ok true known true (or_introl eq_refl) _ _ _ Hok Hd) as (pairs & Hp & _ & Hs).
       exists pairs. split; [exact Hp|]. split; [exact Hs|].
       clear Hp Hd. revert lo Hs. induction pairs as [|[n d] t IH]; intros lo Hs; [constructor|].
-      cbn [spec_options] in Hs.
+      cbn [CertProofs.spec_options] in Hs.
       destruct (assoc n known) as [k|] eqn:Ea; [|discriminate].
       destruct (dec_optval k d) as [v|] eqn:Ev; [|discriminate].
       destruct (spec_options known true t) as [lt|] eqn:Et; [|discriminate].
@@ -592,15 +612,13 @@ Section WithLib.
   Variable pubkey_ok : bytes -> bool.
   Variable keyfields_ok : bytes -> list bytes -> bool.
   Variable addrs_ok : bytes -> bool.
-  Variable cu : bool.
   Variable hash : bytes -> bytes -> bytes.
 
-  Notation dec_options := (dec_options addrs_ok cu).
   Notation dec_optval := (dec_optval addrs_ok).
-  Notation cert_options := (cert_options addrs_ok cu).
-  Notation cert_import := (cert_import sigok pubkey_ok keyfields_ok addrs_ok cu).
-  Notation cert_accept := (cert_accept sigok pubkey_ok keyfields_ok addrs_ok cu).
-  Notation sshsig_validate := (sshsig_validate sigok pubkey_ok keyfields_ok addrs_ok cu hash).
+  Notation cert_options := (cert_options addrs_ok).
+  Notation cert_import := (cert_import sigok pubkey_ok keyfields_ok addrs_ok).
+  Notation cert_accept := (cert_accept sigok pubkey_ok keyfields_ok addrs_ok).
+  Notation sshsig_validate := (sshsig_validate_gen sigok pubkey_ok keyfields_ok addrs_ok hash).
   Notation signed_data := (signed_data hash).
 
   Theorem cert_import_no_fuel blob : cert_import blob <> RFuel.
@@ -614,7 +632,7 @@ Section WithLib.
     destruct (utf8_decode (cf_keyid c)); [|discriminate].
     pose proof (dec_principals_fuel (length (cf_princ c)) (cf_princ c) (le_n _)).
     destruct (dec_principals (length (cf_princ c)) (cf_princ c)); try discriminate; try congruence.
-    pose proof (cert_options_fuel addrs_ok cu (cf_type c) (cf_opts c) (cf_exts c)).
+    pose proof (cert_options_fuel addrs_ok (cf_type c) (cf_opts c) (cf_exts c)).
     destruct (cert_options (cf_type c) (cf_opts c) (cf_exts c)); try discriminate; congruence.
   Qed.
 
@@ -837,7 +855,7 @@ Section WithLib.
     (sshsig_validate want msg ih raw principal entries now = SAccept <->
      sshsig_spec want msg ih raw principal entries now).
   Proof.
-    intros Hok. unfold Cert.sshsig_validate, sshsig_spec. split.
+    intros Hok. unfold Cert.sshsig_validate_gen, sshsig_spec. split.
     - destruct (sshsig_parse raw) as [[[[pub nsb] hname] sig]|] eqn:Ep; [|discriminate].
       apply sshsig_parse_inv in Ep as (rsv & Hraw & L1 & L2 & L3 & L4 & L5); [|exact Hok].
       destruct (cert_import pub) as [ci| |] eqn:Ei.
@@ -879,7 +897,7 @@ Section WithLib.
   Theorem sshsig_no_fuel want msg ih raw principal entries now :
     sshsig_validate want msg ih raw principal entries now <> SFuel.
   Proof.
-    unfold Cert.sshsig_validate.
+    unfold Cert.sshsig_validate_gen.
     destruct (sshsig_parse raw) as [[[[pub nsb] hname] sig]|]; [|discriminate].
     pose proof (cert_import_no_fuel pub) as Hnf.
     destruct (cert_import pub) as [ci| |]; [| |congruence].
@@ -912,7 +930,7 @@ Section WithLib.
       (ci_principals ci = [] \/ In principal (ci_principals ci)).
   Proof.
     intros Hok Hacc pub nsb rsv hname sig Hraw L1 L2 L3 L4 L5 ci ns Hi Hu Hnokey.
-    unfold Cert.sshsig_validate in Hacc.
+    unfold Cert.sshsig_validate_gen in Hacc.
     rewrite Hraw, (sshsig_parse_enc _ _ _ _ _ L1 L2 L3 L4 L5), Hi, Hu in Hacc.
     destruct (signed_data msg ih hname nsb); [|discriminate].
     destruct (negb _); [discriminate|].
@@ -923,24 +941,57 @@ Section WithLib.
     apply cert_validate_ok_iff in Ev. exact Ev.
   Qed.
 
+  (* the model of record: validate_sshsig asks for a USER certificate *)
+  Theorem sshsig_user_accept_iff msg ih raw principal entries now :
+    bytes_ok raw = true ->
+    (Cert.sshsig_validate sigok pubkey_ok keyfields_ok addrs_ok hash msg ih raw principal entries now = SAccept <->
+     sshsig_spec CERT_TYPE_USER msg ih raw principal entries now).
+  Proof. intros Hok. unfold Cert.sshsig_validate. apply sshsig_accept_iff. exact Hok. Qed.
+
+  Theorem sshsig_user_no_fuel msg ih raw principal entries now :
+    Cert.sshsig_validate sigok pubkey_ok keyfields_ok addrs_ok hash msg ih raw principal entries now <> SFuel.
+  Proof. unfold Cert.sshsig_validate. apply sshsig_no_fuel. Qed.
+
+  (* "type matches the use": a signature accepted through a cert-authority entry (the signer's key
+     is not itself listed) was made with a USER certificate valid now for the principal *)
+  Theorem sshsig_ca_path_user_cert msg ih raw principal entries now :
+    bytes_ok raw = true ->
+    Cert.sshsig_validate sigok pubkey_ok keyfields_ok addrs_ok hash msg ih raw principal entries now = SAccept ->
+    forall pub nsb rsv hname sig, raw = enc_sshsig pub nsb rsv hname sig ->
+      zlen pub < 2 ^ 32 -> zlen nsb < 2 ^ 32 -> zlen rsv < 2 ^ 32 -> zlen hname < 2 ^ 32 -> zlen sig < 2 ^ 32 ->
+    forall ci ns, cert_import pub = ROk ci -> utf8_decode nsb = Some ns ->
+      as_validate entries (key_blob (ci_kalg ci) (cf_key (ci_fields ci))) principal ns now false = false ->
+      cf_type (ci_fields ci) = CERT_TYPE_USER /\
+      cf_va (ci_fields ci) <= now < cf_vb (ci_fields ci) /\
+      (ci_principals ci = [] \/ In principal (ci_principals ci)).
+  Proof.
+    intros Hok Hacc pub nsb rsv hname sig Hraw L1 L2 L3 L4 L5 ci ns Hi Hu Hk.
+    unfold Cert.sshsig_validate in Hacc.
+    destruct (sshsig_ca_path_cert_checked _ _ _ _ _ _ _ Hok Hacc _ _ _ _ _ Hraw L1 L2 L3 L4 L5 _ _ Hi Hu Hk)
+      as ([Ht|Ht] & Hw & Hp).
+    - discriminate.
+    - split; [symmetry; exact Ht | split; assumption].
+  Qed.
+
 End WithLib.
 
 (* ------------------------------------------------------------------------------------------ *)
-(* The code as found (consume_unknown = false) does not read extensions as (name, data) pairs:
-   the data of an unknown extension is parsed as the next extension name. *)
+(* The code before /repo commit d13f6e7 (dec_options_old) did not read extensions as (name, data)
+   pairs: the data of an unknown extension was parsed as the next extension name. *)
 
 Definition quirk_pairs : list (bytes * bytes) := [([102;111;111], N_permit_pty); ([], [])].
 
 Lemma extensions_quirk :
-  exists l, dec_options (fun _ => true) false 100 user_extension_kinds false (enc_pairs quirk_pairs) = ROk l /\
+  exists l, dec_options_old (fun _ => true) 100 user_extension_kinds false (enc_pairs quirk_pairs) = ROk l /\
             In (N_permit_pty, OTrue) l /\ ~ In N_permit_pty (map fst quirk_pairs).
 Proof.
   exists [(N_permit_pty, OTrue)]. split; [vm_compute; reflexivity|]. split; [left; reflexivity|].
   simpl. intros [H|[H|[]]]; discriminate.
 Qed.
 
-(* With CERT_TYPE_ANY (the code as found) validate_sshsig accepts a signature made with a HOST
-   certificate through a cert-authority line. Witness over trivial crypto (everything verifies). *)
+(* With CERT_TYPE_ANY (sshsig_validate_old, the code before /repo commit 0617eca) validate_sshsig
+   accepted a signature made with a HOST certificate through a cert-authority line.  Witness over
+   trivial crypto (everything verifies); the model of record rejects the same input. *)
 Definition w_alg : bytes :=
   [115;115;104;45;101;100;50;53;53;49;57;45;99;101;114;116;45;118;48;49;64;111;112;101;110;115;115;104;46;99;111;109].
 Definition w_fields : cert_fields := mkCF w_alg [1] [[2]] 0 2 [105] [] 0 100 [] [] [] [9].
@@ -948,11 +999,11 @@ Definition w_entry : as_entry := mkAS [(false, [42])] true None None None [9].
 Definition w_raw : bytes := enc_sshsig (enc_cert w_fields [7]) [102] [] N_sha512 [8].
 
 Lemma sshsig_host_cert_any :
-  sshsig_validate (fun _ _ _ => true) (fun _ => true) (fun _ _ => true) (fun _ => true) false (fun _ _ => [])
-                  CERT_TYPE_ANY [] false w_raw [97] [w_entry] 50 = SAccept.
+  sshsig_validate_old (fun _ _ _ => true) (fun _ => true) (fun _ _ => true) (fun _ => true) (fun _ _ => [])
+                      [] false w_raw [97] [w_entry] 50 = SAccept.
 Proof. vm_compute. reflexivity. Qed.
 
 Lemma sshsig_host_cert_user :
-  sshsig_validate (fun _ _ _ => true) (fun _ => true) (fun _ _ => true) (fun _ => true) false (fun _ _ => [])
-                  CERT_TYPE_USER [] false w_raw [97] [w_entry] 50 = SReject.
+  sshsig_validate (fun _ _ _ => true) (fun _ => true) (fun _ _ => true) (fun _ => true) (fun _ _ => [])
+                  [] false w_raw [97] [w_entry] 50 = SReject.
 Proof. vm_compute. reflexivity. Qed.
